@@ -406,15 +406,20 @@ func deepAndHistoryEntryPoints(w *bufio.Writer) {
 }
 
 func textScannerEntryPoints(w *bufio.Writer) {
-	def := lexer.NewTextScannerLexer(func(s *scanner.Scanner) { s.Mode = scanner.GoTokens &^ scanner.SkipComments })
+	textScannerBlock(w, "textcfg", lexer.NewTextScannerLexer(func(s *scanner.Scanner) { s.Mode = scanner.GoTokens &^ scanner.SkipComments }))
+	// the default definition, also on inputs for which text/scanner reports a diagnostic (every entry point reports it alike)
+	textScannerBlock(w, "textdef", lexer.TextScannerLexer)
+}
+
+func textScannerBlock(w *bufio.Writer, block string, def lexer.Definition) {
 	p, err := participle.Build[tsGrammar](participle.Lexer(def))
 	if err != nil {
-		fmt.Fprintf(w, "textcfg\t0\t0\tbuild\tbuilderr %v\n", err)
+		fmt.Fprintf(w, "%s\t0\t0\tbuild\tbuilderr %v\n", block, err)
 		return
 	}
 	names := lexer.SymbolsByRune(p.Lexer())
-	for i, s := range []string{"a // c\nb /* x */ 1", "/* only */", "x + (y) // t", "\"s\" // c"} {
-		emit := func(ep, out string) { fmt.Fprintf(w, "textcfg\t0\t%d\t%s\t%s\n", i, ep, out) }
+	for i, s := range []string{"a // c\nb /* x */ 1", "/* only */", "x + (y) // t", "\"s\" // c", "x \"open", "'ab' y", "a\x00b", "x \xff y", "0x + 1e+", "a /* open", "`raw", "'"} {
+		emit := func(ep, out string) { fmt.Fprintf(w, "%s\t0\t%d\t%s\t%s\n", block, i, ep, out) }
 		render := func(v *tsGrammar, err error) string {
 			if err != nil {
 				return "err " + err.Error()
@@ -451,6 +456,15 @@ func textScannerEntryPoints(w *bufio.Writer) {
 		if bd, ok := def.(lexer.BytesDefinition); ok {
 			t3, le3 := lexAll(bd.LexBytes("fn", []byte(s)))
 			emit("def.LexBytes", key(t3, le3))
+		}
+		if block == "textdef" {
+			// the package-level helpers are the default definition under other names
+			t4, le4 := lexAll(lexer.Lex("fn", strings.NewReader(s)), nil)
+			emit("pkg.Lex", key(t4, le4))
+			t5, le5 := lexAll(lexer.LexString("fn", s), nil)
+			emit("pkg.LexString", key(t5, le5))
+			t6, le6 := lexAll(lexer.LexBytes("fn", []byte(s)), nil)
+			emit("pkg.LexBytes", key(t6, le6))
 		}
 	}
 }
